@@ -101,3 +101,41 @@ def fully_transparent(state, area, rng):
             and result().agent.orientation is F and same(result().agent.grid_object, s0.agent.grid_object))
     ensures('state-unchanged', lambda: same(state, s0))
     ensures('no-draw', lambda: draws(rng) == 0)
+
+
+def delegation(name):
+    """the thin wrappers only look a visibility function up by name and delegate"""
+    FV = OF + 'from_visibility'
+
+    def body(state, area, rng):
+        from gym_gridverse.envs.visibility_functions import visibility_function_registry
+        ensures('delegates-once', lambda: ghost_calls(FV) == 1)
+        ensures('same-arguments', lambda: ghost_arg(FV, 0, 0) is state and ghost_kwarg(FV, 0, 'area') is area
+                and ghost_kwarg(FV, 0, 'rng') is rng
+                and ghost_kwarg(FV, 0, 'visibility_function') is visibility_function_registry[name])
+        ensures('returns-its-result', lambda: returned() and result() is ghost_result(FV, 0))
+    return body
+
+
+@contract(target=OF + 'fully_transparent', args={'state': 'State', 'area': 'Area', 'rng': 'Rng'},
+          kwonly=['area', 'rng'], props=['C02', 'C05', 'C06', 'C07'], stubs=[OF + 'from_visibility'])
+def fully_transparent_delegates(state, area, rng):
+    delegation('fully_transparent')(state, area, rng)
+
+
+@contract(target=OF + 'partially_occluded', args={'state': 'State', 'area': 'Area', 'rng': 'Rng'},
+          kwonly=['area', 'rng'], props=['C02', 'C05', 'C06', 'C07'], stubs=[OF + 'from_visibility'])
+def partially_occluded_delegates(state, area, rng):
+    delegation('partially_occluded')(state, area, rng)
+
+
+@contract(target=OF + 'raytracing', args={'state': 'State', 'area': 'Area', 'rng': 'Rng'},
+          kwonly=['area', 'rng'], props=['C02', 'C05', 'C06', 'C07'], stubs=[OF + 'from_visibility'])
+def raytracing_delegates(state, area, rng):
+    delegation('raytracing')(state, area, rng)
+
+
+@contract(target=OF + 'stochastic_raytracing', args={'state': 'State', 'area': 'Area', 'rng': 'Rng'},
+          kwonly=['area', 'rng'], props=['C02', 'C05', 'C06'], stubs=[OF + 'from_visibility'])
+def stochastic_raytracing_delegates(state, area, rng):
+    delegation('stochastic_raytracing')(state, area, rng)
